@@ -288,6 +288,7 @@ func (s *SecureChannel) dispatcher() {
 			}
 
 			ch, ok := s.popHandler(msg.RequestID)
+			verifPoint("dispatcher.afterPopHandler")
 
 			if !ok {
 				debug.Printf("uasc %d/%d: no handler for %T", s.c.ID(), msg.RequestID, msg.body)
@@ -296,6 +297,7 @@ func (s *SecureChannel) dispatcher() {
 
 			// HACK
 			if _, ok := msg.Response().(*ua.OpenSecureChannelResponse); ok {
+				verifPoint("dispatcher.beforeRcvLock")
 				s.rcvLocker.lock()
 			}
 
@@ -633,6 +635,7 @@ func (s *SecureChannel) open(ctx context.Context, instance *channelInstance, req
 		// be raised on the server? can the sequenceNumber be as "global" as the request ID?
 		s.openingInstance.sequenceNumber = instance.sequenceNumber
 		s.openingInstance.secureChannelID = instance.secureChannelID
+		verifPoint("open.afterSeqCopy")
 	}
 
 	// trigger cleanup after we are all done
@@ -783,6 +786,7 @@ func (s *SecureChannel) handleOpenSecureChannelRequest(reqID uint32, svc ua.Requ
 
 	instance := s.openingInstance
 	instance.algo = algo
+	verifPoint("serverOPN.afterAsymAlgo")
 	instance.sc.requestID = req.RequestHeader.RequestHandle // todo(fs): is this correct?
 
 	nonce := make([]byte, instance.algo.NonceLength())
@@ -858,7 +862,9 @@ func (s *SecureChannel) renew(instance *channelInstance) error {
 	// lock ensure no one else renews this at the same time
 	s.reqLocker.lock()
 	defer s.reqLocker.unlock()
+	verifPoint("renew.afterReqLock")
 	s.pendingReq.Wait()
+	verifPoint("renew.afterPendingWait")
 	instance.Lock()
 	defer instance.Unlock()
 
@@ -946,6 +952,7 @@ func (s *SecureChannel) sendRequestWithTimeout(
 		}
 		return h(msg.Response())
 	case <-timer.C:
+		verifPoint("request.timeoutBranch")
 		s.popHandler(reqID)
 		return ua.StatusBadTimeout
 	}
@@ -982,6 +989,7 @@ func (s *SecureChannel) SendRequestWithTimeout(ctx context.Context, req ua.Reque
 	if err != nil {
 		return err
 	}
+	verifPoint("send.afterGetActive")
 
 	return s.sendRequestWithTimeout(ctx, req, s.nextRequestID(), active, authToken, timeout, h)
 }
@@ -996,8 +1004,10 @@ func (s *SecureChannel) sendAsyncWithTimeout(
 	timeout time.Duration,
 ) (<-chan *MessageBody, error) {
 
+	verifPoint("send.beforeInstanceLock")
 	instance.Lock()
 	defer instance.Unlock()
+	verifPoint("send.afterInstanceLock")
 
 	m, err := instance.newRequestMessage(req, reqID, authToken, timeout)
 	if err != nil {
@@ -1033,6 +1043,7 @@ func (s *SecureChannel) sendAsyncWithTimeout(
 		default:
 		}
 		if i > 0 { // fix sequence number on subsequent chunks
+			verifPoint("send.betweenChunks")
 			number := instance.nextSequenceNumber()
 			binary.LittleEndian.PutUint32(chunk[16:], uint32(number))
 		}
@@ -1161,6 +1172,7 @@ func (s *SecureChannel) sendResponseWithContext(ctx context.Context, instance *c
 			return err
 		}
 	}
+	verifPoint("response.beforeInstanceLock")
 	instance.Lock()
 	defer instance.Unlock()
 
